@@ -532,6 +532,14 @@ func c04Minimise(dir string, p *c04Payload, key string, budget int) *c04Payload 
 	return &best
 }
 
+var inputConditions = []string{
+	"true", "1 < 2", "false", `sprintf("%s-%d", "a", 1) == "a-1"`, `semver("1.2.3").Major >= 1`, `semver("v10.0.0-pre").GT(semver("9.5.1"))`,
+	"'yes'", "1", "nil", `sprintf("%d", 3)`, `semver("not a version")`, `semver("1.0.0")`,
+	`first(['a', 'b'])`, `[1, 'a'][1]`, `{"a": 1, "b": 'x'}["b"]`, `1 < 2 ? 'enabled' : false`, `fromJSON("{\"x\": 1}").x`, `find(['v1', 'v2'], # == 'v2')`,
+	`fromJSON("[")`, `[1, 2][5]`, `1 / 0 > 0`, `len(nil) > 0`,
+	"1 <", ")(", "", "unknownFunction(1)", "%alpha%", `"%alpha%" == "x"`, "true and", "let x = 1; x == 1",
+}
+
 func init() {
 	Register(&Property{
 		ID: "C04",
@@ -625,6 +633,11 @@ func init() {
 					}
 					w.TplData["Cyclic"] = Pick(r, []string{"%self%", "%ping%", "%same%"})
 					w.OutputDir = "out/%l/" + Pick(r, []string{"%self%", "%pong%", "x"})
+				}
+				if sr := r.Side("input-condition"); sr.Chance(1, 6) && len(w.Inputs) > 0 {
+					// `if:` conditions: boolean, skipping, statically and dynamically non-boolean,
+					// unparsable, using the two helper functions, failing at run time
+					w.Inputs[sr.Intn(len(w.Inputs))].If = Pick(sr, inputConditions)
 				}
 				p.W = w
 				if mode == "http" {
